@@ -338,6 +338,8 @@ func RunExpr(ctx *Task, node *ast.Node) *errchain.PlError {
 
 	// TODO
 	case ast.TypeAttrExpr:
+		// attribute expressions have no value
+		ctx.Regs.Reset()
 		return nil
 
 	case ast.TypeBoolLiteral:
@@ -1040,6 +1042,9 @@ func changeListOrMapValue(ctx *Task, obj any, index []*ast.Node, val V) *errchai
 }
 
 func RunCallExpr(ctx *Task, expr *ast.CallExpr) *errchain.PlError {
+	// a function that returns nothing must not appear to return whatever
+	// the previous expression left in the registers
+	ctx.Regs.Reset()
 	if funcCall, ok := ctx.GetFn(expr.Name); ok {
 		if err := funcCall(ctx, expr); err != nil {
 			return err
